@@ -22,6 +22,7 @@ pub mod c17;
 #[cfg(feature = "cluster")]
 pub mod c18;
 pub mod c19;
+pub mod c20;
 pub mod fac;
 
 pub fn dispatch(args: &Args, rep: &mut Report) {
@@ -48,6 +49,8 @@ pub fn dispatch(args: &Args, rep: &mut Report) {
         "C18" => c18::run(args, rep),
         #[cfg(feature = "cluster")]
         "C19" => c19::run(args, rep),
+        #[cfg(feature = "cluster")]
+        "C20" => c20::run(args, rep),
         p => {
             eprintln!("unknown property {p}");
             std::process::exit(2);
